@@ -200,6 +200,12 @@ HAND = [
     "[13CH3]I.[OH-]>>[13CH3]O",
     "[2H]O[2H].CC(=O)Cl>>CC(=O)O[2H]",
     "[*]C(=O)OC>>[*]C(=O)O",
+    # product-side carbon surplus where the extra carbon is aromatic
+    "Nc1ccccc1O>>c1nc2ccccc2o1",
+    "c1ccccc1>>c1ccc2ccccc2c1",
+    "Oc1ccccc1>>Oc1ccc2ccccc2c1",
+    "Nc1ccccc1S>>c1nc2ccccc2s1.O",
+    "NC(=O)c1ccccc1N>>O=c1[nH]cnc2ccccc12",
     # isotope labels that are lost or moved
     "[2H]C([2H])([2H])C([2H])([2H])[2H]>>[2H]C([2H])=C([2H])[2H]",
     "[2H]C([2H])([2H])O[2H]>>[2H]C([2H])=O",
